@@ -9,11 +9,11 @@
        tasks, and whether stop() was called.  One event = one step of the harness scenario; the
        machine is compared with the real client after every step.
 
-   Definitions only; executable.  It models the code AS IT IS, including: the inverted auto_join test
-   (F19), DistributedNetwork missing from services (F20), the watchdog that is only cancelled from
-   the CLOSING notification (so not when stop() finds the connection already CLOSED), a loss during
-   the SessionInitialized emission (later handlers still run), and a loss noticed inside a user
-   tracking task (the CLOSED notification cancels the task that is delivering it). *)
+   Definitions only; executable.  It models the code AS IT IS after the repairs of F19 (auto_join),
+   F20 (DistributedNetwork is a service; a cancelled connect race cancels its children: C11-N1),
+   C16-N1 (stop() cancels the watchdog) and C16-N3 (the CLOSED notification is no longer cut short
+   when a tracking task notices the loss), and still including C16-N2: a loss during the
+   SessionInitialized emission (later handlers still run on the dead connection). *)
 From Coq Require Import List Bool Arith.
 Import ListNotations.
 
@@ -46,7 +46,7 @@ Definition login_burst (s : settings) (ports : nat * nat) (shares : nat * nat) :
   ++ [CheckPrivileges; SetStatusOnline]
   ++ AddUser 0 :: map AddUser (s_friends s)
   ++ [TogglePrivateRoomInvites (s_invites s)]
-  ++ (if negb (s_auto_join s) then map JoinRoom (s_favorites s) else [])      (* room/manager.py:537  `if not auto_join` *)
+  ++ (if s_auto_join s then map JoinRoom (s_favorites s) else [])      (* room/manager.py:537  `if auto_join` (F19 repaired) *)
   ++ map AddInterest (s_liked s) ++ map AddHatedInterest (s_hated s)
   ++ [SharedFoldersFiles (fst shares) (snd shares)].
 
@@ -98,11 +98,10 @@ Record st := mkSt {
   dist : bool;           (* a server-sent distributed parameter is set *)
   watchdog : bool;       (* reconnect watchdog task running *)
   parents : bool;        (* potential-parent connect tasks pending *)
-  wedged : bool;         (* a tracking task awaits its own cancellation (after LostInTracking) *)
   stopped : bool;
   pending : bool }.      (* the watchdog's automatic login is waiting for the server's reply *)
 
-Definition init : st := mkSt Uninit false false false false false false false false false.
+Definition init : st := mkSt Uninit false false false false false false false false.
 
 Definition keeps_watchdog (r : reason) : bool :=
   match r with RRequested | REof => false | _ => true end.
@@ -110,7 +109,7 @@ Definition keeps_watchdog (r : reason) : bool :=
 (* the CLOSING + CLOSED notifications of the server connection, delivered completely *)
 Definition closed (r : reason) (x : st) : st * list out :=
   (* managers drop their session copy on SessionDestroyedEvent, which is only emitted when the client has a session *)
-  (mkSt Closed false (if session x then false else msession x) false false (watchdog x && keeps_watchdog r) (parents x) (wedged x) (stopped x) false,
+  (mkSt Closed false (if session x then false else msession x) false false (watchdog x && keeps_watchdog r) (parents x) (stopped x) false,
    if session x then [OSessionDestroyed] else []).
 
 Definition login_sent (x : st) : list out := if pending x then [] else [OLoginSent].
@@ -120,20 +119,20 @@ Definition step (auto : bool) (x : st) (e : event) : st * list out :=
   | Start ok =>
       match conn x with
       | Uninit =>
-          if ok then (mkSt Connected false false false false auto false false (stopped x) false, [OConnect])
-          else (mkSt Closed false false false false false false false (stopped x) false, [OConnect])
+          if ok then (mkSt Connected false false false false auto false (stopped x) false, [OConnect])
+          else (mkSt Closed false false false false false false (stopped x) false, [OConnect])
       | _ => (x, [OIgnored])
       end
   | Login r =>
       match conn x with
       | Connected =>
           (* calling login() a second time on a connection that already has a session is not modelled *)
-          if session x && negb (wedged x) then (x, [OIgnored]) else
+          if session x then (x, [OIgnored]) else
           match r with
-          | RepOk => (mkSt Connected true true true (dist x) (watchdog x) (parents x) (wedged x) (stopped x) false,
+          | RepOk => (mkSt Connected true true true (dist x) (watchdog x) (parents x) (stopped x) false,
                       login_sent x ++ [OSessionInit; OBurst])
           | RepRejected | RepGarbled =>
-              (mkSt (conn x) (session x) (msession x) (derived x) (dist x) (watchdog x) (parents x) (wedged x) (stopped x) false, login_sent x)
+              (mkSt (conn x) (session x) (msession x) (derived x) (dist x) (watchdog x) (parents x) (stopped x) false, login_sent x)
           | RepEof => let '(y, o) := closed REof x in (y, login_sent x ++ o)
           end
       | _ => (x, [OIgnored])
@@ -141,57 +140,46 @@ Definition step (auto : bool) (x : st) (e : event) : st * list out :=
   | LoginCut h =>
       match conn x with
       | Connected =>
-          if session x && negb (wedged x) then (x, [OIgnored]) else
-          (* session set, emission starts, handler h breaks the connection: CLOSED is delivered in
+          if session x then (x, [OIgnored]) else
+          (* C16-N2: session set, emission starts, handler h breaks the connection: CLOSED is delivered in
              the middle (session destroyed, state reset), then the remaining handlers run *)
           let users_later := Nat.ltb (hidx h) (hidx HUsers) in
-          (mkSt Closed false true users_later false (watchdog x) (parents x) (wedged x) (stopped x) false,
+          (mkSt Closed false true users_later false (watchdog x) (parents x) (stopped x) false,
            login_sent x ++ [OSessionInit; OSessionDestroyed])
       | _ => (x, [OIgnored])
       end
-  | Dist => match conn x with Connected => if session x then (mkSt (conn x) (session x) (msession x) (derived x) true (watchdog x) (parents x) (wedged x) (stopped x) (pending x), []) else (x, [OIgnored]) | _ => (x, [OIgnored]) end
-  | Parents => match conn x with Connected => if session x then (mkSt (conn x) (session x) (msession x) (derived x) (dist x) (watchdog x) true (wedged x) (stopped x) (pending x), []) else (x, [OIgnored]) | _ => (x, [OIgnored]) end
+  | Dist => match conn x with Connected => if session x then (mkSt (conn x) (session x) (msession x) (derived x) true (watchdog x) (parents x) (stopped x) (pending x), []) else (x, [OIgnored]) | _ => (x, [OIgnored]) end
+  | Parents => match conn x with Connected => if session x then (mkSt (conn x) (session x) (msession x) (derived x) (dist x) (watchdog x) true (stopped x) (pending x), []) else (x, [OIgnored]) | _ => (x, [OIgnored]) end
   | Lost r =>
       match conn x with
       | Connected => closed r x
       | _ => (x, [OIgnored])
       end
   | LostInTracking r =>
+      (* C16-N3 repaired: a loss noticed inside a tracking task is notified like any other loss *)
       match conn x with
-      | Connected =>
-          if session x then
-            (* CLOSING is delivered; CLOSED reaches DistributedNetwork and the tracking manager, which
-               cancels the task that is delivering the notification: nothing after it runs *)
-            (mkSt Closed true true true false (watchdog x && keeps_watchdog r) (parents x) true (stopped x) false, [])
-          else (x, [OIgnored])
+      | Connected => if session x then closed r x else (x, [OIgnored])
       | _ => (x, [OIgnored])
       end
   | Tick ok =>
       match conn x with
       | Closed =>
           if watchdog x then
-            if ok then (mkSt Connected (session x) (msession x) (derived x) false (watchdog x) (parents x) (wedged x) (stopped x) true, [OConnect; OLoginSent])
+            if ok then (mkSt Connected (session x) (msession x) (derived x) false (watchdog x) (parents x) (stopped x) true, [OConnect; OLoginSent])
             else let '(y, o) := closed RRead x in (y, OConnect :: o)     (* failed attempt: CLOSED (CONNECT_FAILED) is notified again *)
           else (x, [])
       | _ => (x, [])
       end
   | Command => (x, [if session x then OSent else ORefused])
   | Stop =>
-      if wedged x then
-        match conn x with
-        | Connected =>   (* re-connected by the watchdog: the disconnect is notified, then the services' stop() raises *)
-            (mkSt Closed false false (derived x) false false (parents x) (wedged x) true false,
-             (if session x then [OSessionDestroyed] else []) ++ [OStopRaised])
-        | _ => (mkSt (conn x) (session x) (msession x) (derived x) (dist x) (watchdog x) (parents x) (wedged x) true (pending x), [OStopRaised])
-        end
-      else
+      (* Network.disconnect() cancels the watchdog (C16-N1 repaired); the services' stop() cancels the user
+         tracking tasks and the potential-parent tasks with their connect attempts (F20 / C11-N1 repaired) *)
       match conn x with
       | Connected =>
           let '(y, o) := closed RRequested x in
-          (mkSt (conn y) (session y) (msession y) (derived y) (dist y) (watchdog y) (parents y) (wedged y) true false, o)
-      | _ =>   (* disconnect() of a CLOSED / never opened connection returns at once: no CLOSING notification
-             (the services' stop() still cancels the user tracking tasks) *)
-          (mkSt (conn x) (session x) (msession x) false (dist x) (watchdog x) (parents x) (wedged x) true (pending x), [])
+          (mkSt (conn y) (session y) (msession y) (derived y) (dist y) false false true false, o)
+      | _ =>   (* disconnect() of a CLOSED / never opened connection returns at once: no CLOSING notification *)
+          (mkSt (conn x) (session x) (msession x) false (dist x) false false true (pending x), [])
       end
   end.
 
@@ -218,8 +206,6 @@ Fixpoint count (o : out) (l : list out) : nat :=
                | _, _ => 0 end) + count o r
   end.
 
-(* events of the "well-behaved" fragment: no loss in the middle of the login emission, none inside a
-   tracking task *)
-Definition plain (e : event) : bool := match e with LoginCut _ | LostInTracking _ => false | _ => true end.
+(* events of the "well-behaved" fragment: no loss in the middle of the login emission (C16-N2) *)
+Definition plain (e : event) : bool := match e with LoginCut _ => false | _ => true end.
 Definition is_stop (e : event) : bool := match e with Stop => true | _ => false end.
-Definition quiet (x : st) : Prop := conn x <> Connected /\ watchdog x = false /\ parents x = false.
